@@ -9,6 +9,7 @@ C15 — the property as executable predicates over OBSERVABLE behaviour (core Le
 * `shotOK`      — one scenario invocation seen from outside: steps start in the listed order, every step
                   before the last one reported a successful sample, a failed sample is the last event of the
                   shot, and without a failure every step was executed.
+* `feedCount`   — with the provider options `passes` / `limit` the feed ends after whole passes / after `limit` ammo.
 * `roundRobinOK`— the rows handed out by one `[next]` counter are, as a multiset, `{k mod L | k < n}`.
 -/
 import Pandora.Model.C15
@@ -66,6 +67,18 @@ def ringOK (ns : List (List Char)) (ws : List Int) (delivered : List (List Char)
   (let whole := delivered.take (delivered.length / period * period)
    (ns.zip ew).all fun (ni, wi) => (ns.zip ew).all fun (nj, wj) =>
      count ni whole * wj == count nj whole * wi)
+
+/-- the length of one pass: `Σ w_i / gcd(w)` -/
+def ringPeriod (ws : List Int) : Nat :=
+  let ew := effWeights ws
+  let g := gcdList ew
+  if g == 0 then 0 else (ew.map (· / g)).foldl (· + ·) 0
+
+/-- how many ammo a consumer that takes at most `n` receives from a provider with the options `passes` / `limit`
+(0 = unlimited) over a pass of `period` ammo: whole passes, at most `limit` -/
+def feedCount (period passes limit n : Nat) : Nat :=
+  let a := if passes == 0 then n else min n (passes * period)
+  if limit == 0 then a else min a limit
 
 /-- events of one shot as seen from outside -/
 inductive OEv where
